@@ -24,6 +24,9 @@ CHECKS = {
  "C06": ("progsim", "runtime monitoring: attachment oracle (exactly once, right record, bytes, per-route order) with whole-cycle placements",
   "unique keys / event names make every attachment traceable; for each delivered copy the expected attachments under the stated provisos must be present exactly once, in per-(route,thread) order, byte-equal (decorated UTF-8, NUL, 5 kB strings), and nothing else may be on it; cycles are placed between every pair of operations and inside operations.",
   "cycles are atomic here (the statement quantifies over placements between attachment and finish); two recorded findings", "DESIGN.md §5 C06"),
+ "C07": ("progsim+hostile", "runtime monitoring: panic / abort / no-return observation under hostile generated programs and one-process-per-scenario runs",
+  "Random programs from a hostile profile (no-op and empty parent sets, scopes on spans without a trace, unsampled roots, property closures that themselves run API programs, all adapter kinds, thread exits) run under whole-cycle and stepped schedules with every call wrapped in catch_unwind and a 20 s baton watchdog; a dying shard is an abort. Separate processes run every public call before set_reporter, 4200 nested scopes, 10400 local spans in a scope, a 25000-command flood of an undrained ring with per-call latency, and the whole call list from thread-local destructors in each registration order of user / fastrace / rand thread-locals (debug assertions on; thorough also release).",
+  "guards and local spans are released in reverse order (the stated precondition); flush() inside report() and a thread's very first send while the collector is parked inside a drain are not exercised; one recorded finding", "DESIGN.md §5 C07"),
  "C08": ("progsim", "runtime monitoring: collector-state introspection hook compared with the model at quiescent points",
   "after every program (roots deliberately left in flight across programs are not used; each program ends quiescent) collector_stats() must show exactly the expected active collect ids, no buffered sets / parked attachments for finished traces, empty scratch vectors and one receiver per live thread; histories include thread exits, cancels, roots finished on other threads, stepped mid-drain schedules.",
   "collect ids are predicted from the order of sampled root creations in the process", "DESIGN.md §5 C08"),
@@ -91,6 +94,8 @@ def main():
         "engines": [
             {"name": "codec", "path": "harness/hx/src/bin/codec.rs", "serves_properties": ["C12"],
              "kind_free_text": "pure-function monitoring of the text codecs against an independent reference"},
+            {"name": "hostile", "path": "harness/hx/src/bin/hostile.rs", "serves_properties": ["C07"],
+             "kind_free_text": "one-process-per-scenario hostile API use (limits, TLS teardown, pre-reporter, full ring); exit status and JSON are the observation"},
             {"name": "progsim", "path": "harness/hx/src/bin/progsim.rs", "serves_properties": sorted(p for p in claimed if "progsim" in CHECKS[p][0]),
              "kind_free_text": "random and template span-API programs on real threads under a baton scheduler, collector stepped through hook points, shadow-model oracles"},
         ],
